@@ -248,20 +248,22 @@ fn check_source(src: &str, site: &str, input: &str, fns: &[(&str, Vec<usize>, us
     }
 }
 
-pub fn run(tier: Tier) -> i32 {
-    let start = Instant::now();
-    let budget = Budget::new(tier.pick(200.0, 3300.0));
-    let coll = Collector::new();
-    let cnt = Cnt { programs: AtomicU64::new(0), accepted: AtomicU64::new(0), rejected: AtomicU64::new(0), compiled_fns: AtomicU64::new(0), refused_no_input_bits: AtomicU64::new(0) };
+pub struct IJob {
+    pub src: String,
+    pub site: String,
+    pub input: String,
+    pub fns: Vec<(&'static str, Vec<usize>, usize)>,
+    pub must_accept: bool,
+    /// programs that differ only in which literals carry a suffix share a group; mask 0 = all suffixed
+    pub group: String,
+    pub mask: u32,
+}
+
+/// family I: all programs, and the number of programs per template
+pub fn family_i_jobs() -> (Vec<IJob>, BTreeMap<String, u64>) {
+    type Job = IJob;
     // (b) family I
     let tys = [IntTy::U8, IntTy::U16, IntTy::U32, IntTy::U64, IntTy::Usize, IntTy::I8, IntTy::I16, IntTy::I32, IntTy::I64];
-    struct Job {
-        src: String,
-        site: String,
-        input: String,
-        fns: Vec<(&'static str, Vec<usize>, usize)>,
-        must_accept: bool,
-    }
     let mut jobs = vec![];
     let per_template: Mutex<BTreeMap<String, u64>> = Mutex::new(BTreeMap::new());
     for tpl in TEMPLATES {
@@ -282,7 +284,7 @@ pub fn run(tier: Tier) -> i32 {
                 // keeps 32 wires whatever type it is later used at
                 let binds = tpl.src.contains("let ") && !tpl.src.contains("let v: T") || tpl.src.contains("for ");
                 let class = if binds && (mask != 0 || tpl.src.contains("MAX1")) { "let-bound-unsuffixed" } else { "direct" };
-                jobs.push(Job { src, site: format!("I/{}/{}/unsuffixed={:b}", class, tpl.name, mask), input: t.name().to_string(), fns, must_accept });
+                jobs.push(Job { src, site: format!("I/{}/{}/unsuffixed={:b}", class, tpl.name, mask), input: t.name().to_string(), fns, must_accept, group: format!("{}/{}", tpl.name, t.name()), mask });
                 *per_template.lock().unwrap().entry(tpl.name.to_string()).or_insert(0) += 1;
             }
         }
@@ -336,20 +338,92 @@ pub fn run(tier: Tier) -> i32 {
                     let (src, _) = instantiate(&tsrc, t, mask);
                     let fns = vec![("main", cparams.iter().map(|p| bits_of(p, t)).collect::<Vec<_>>(), bits_of(cret, t))];
                     let must_accept = mask == 0 && !tsrc.contains("{300:");
-                    jobs.push(Job { src, site: format!("I/direct/ctx {} / {}/unsuffixed={:b}", cname, sname, mask), input: t.name().to_string(), fns, must_accept });
+                    jobs.push(Job { src, site: format!("I/direct/ctx {} / {}/unsuffixed={:b}", cname, sname, mask), input: t.name().to_string(), fns, must_accept, group: format!("ctx {cname} / {sname}/{}", t.name()), mask });
                     *per_template.lock().unwrap().entry(format!("ctx {cname}")).or_insert(0) += 1;
                 }
             }
         }
     }
     for (name, src, parties, ret) in ZERO_SIZED {
-        jobs.push(Job { src: src.to_string(), site: format!("I/zero-sized/{name}"), input: String::new(), fns: vec![("main", parties.to_vec(), *ret)], must_accept: false });
+        jobs.push(Job { src: src.to_string(), site: format!("I/zero-sized/{name}"), input: String::new(), fns: vec![("main", parties.to_vec(), *ret)], must_accept: false, group: String::new(), mask: 0 });
     }
+    (jobs, per_template.into_inner().unwrap())
+}
+
+/// differential value oracle over family I; returns (pairs compared, evaluations)
+pub fn suffix_differential(jobs: &[IJob], budget: &Budget, coll: &Collector) -> (u64, u64) {
+    // differential value oracle: a program in which some literals are left unsuffixed must - when it
+    // is accepted - compute what the fully suffixed program computes (all literal values are
+    // small, so the meaning does not depend on the width an unspecified number has on the way)
+    let diff_pairs = AtomicU64::new(0);
+    let diff_evals = AtomicU64::new(0);
+    {
+        let mut groups: BTreeMap<&str, Vec<usize>> = BTreeMap::new();
+        for (i, j) in jobs.iter().enumerate() {
+            if !j.group.is_empty() {
+                groups.entry(j.group.as_str()).or_default().push(i);
+            }
+        }
+        let groups: Vec<Vec<usize>> = groups.into_values().filter(|g| g.len() >= 2).collect();
+        par_range(groups.len(), &budget, |gi| {
+            let g = &groups[gi];
+            let Some(&r) = g.iter().find(|i| jobs[**i].mask == 0) else { return };
+            let reference = match catch(|| garble_lang::compile(&jobs[r].src)) {
+                Ok(Ok(p)) => p,
+                _ => return,
+            };
+            let parties = &jobs[r].fns[0].1;
+            let patterns: [&dyn Fn(usize, usize) -> bool; 6] = [&|_, _| false, &|_, _| true, &|k, n| k == n - 1, &|k, _| k % 2 == 0, &|k, _| k % 2 == 1, &|k, n| k == 0 || k + 2 == n];
+            let inputs: Vec<Vec<Vec<bool>>> = patterns.iter().map(|f| parties.iter().map(|n| (0..*n).map(|k| f(k, *n)).collect()).collect()).collect();
+            let ref_outs: Vec<Option<Vec<bool>>> = inputs.iter().map(|inp| catch(|| reference.circuit.eval(inp)).ok()).collect();
+            for &i in g.iter().filter(|i| jobs[**i].mask != 0) {
+                let j = &jobs[i];
+                let Ok(Ok(p)) = catch(|| garble_lang::compile(&j.src)) else { continue };
+                diff_pairs.fetch_add(1, Ordering::Relaxed);
+                for (inp, ro) in inputs.iter().zip(ref_outs.iter()) {
+                    let Some(ro) = ro else { continue };
+                    let Ok(o) = catch(|| p.circuit.eval(inp)) else { continue };
+                    diff_evals.fetch_add(1, Ordering::Relaxed);
+                    // compare: panic flag + reason; the value bits when there is no panic
+                    let same = if ro.len() != o.len() || ro.len() < 161 {
+                        false
+                    } else if ro[0] || o[0] {
+                        ro[0] == o[0] && ro[1..33] == o[1..33]
+                    } else {
+                        ro[161..] == o[161..]
+                    };
+                    if !same {
+                        coll.push(Violation::new(
+                            "C01",
+                            format!("I/diff/{}", j.site.trim_start_matches("I/")),
+                            "differs-from-fully-suffixed-program",
+                            j.input.clone(),
+                            json!({"kind": "program-pair", "source": j.src, "fully_suffixed": jobs[r].src, "input": format!("{inp:?}")}),
+                            format!("outputs differ from the fully suffixed program on input {inp:?}"),
+                        ));
+                        break;
+                    }
+                }
+            }
+        });
+    }
+    (diff_pairs.load(Ordering::Relaxed), diff_evals.load(Ordering::Relaxed))
+}
+
+pub fn run(tier: Tier) -> i32 {
+    let start = Instant::now();
+    let budget = Budget::new(tier.pick(200.0, 3300.0));
+    let coll = Collector::new();
+    let cnt = Cnt { programs: AtomicU64::new(0), accepted: AtomicU64::new(0), rejected: AtomicU64::new(0), compiled_fns: AtomicU64::new(0), refused_no_input_bits: AtomicU64::new(0) };
+    // (b) family I
+    let (jobs, per_template) = family_i_jobs();
+    let per_template = Mutex::new(per_template);
     let n_i = jobs.len();
     let done = par_range(jobs.len(), &budget, |i| {
         let j = &jobs[i];
         check_source(&j.src, &j.site, &j.input, &j.fns, j.must_accept, &cnt, &coll);
     });
+    let (diff_pairs, diff_evals) = suffix_differential(&jobs, &budget, &coll);
     // (a) all fully annotated programs of the other families
     let (fjobs, plan) = c01::family_jobs(tier, &["E-small", "S", "P", "D"]);
     let fr = c01::run_jobs(fjobs, c01::attribution_for, &budget, plan);
@@ -363,7 +437,9 @@ pub fn run(tier: Tier) -> i32 {
         coverage: json!({
             "evaluations": cnt.programs.load(Ordering::Relaxed) + fr.counters.get("programs"),
             "distinct_nontrivial": cnt.accepted.load(Ordering::Relaxed) + fr.counters.get("nontrivial_programs"),
-            "rule": "family I: 50 templates, one per path by which an integer literal meets its type (operand either side, nested, through let / let mut / annotated let / destructuring / arrays / repeat / tuples / struct and enum fields / fn arguments / return / if branches / match patterns and arms / block tail / ranges / indices / shift amounts / casts / assignments / negative and out-of-range values), each literal position suffixed or unsuffixed in EVERY subset, for all 9 integer types; plus zero-sized and single-array-parameter programs; an accepted program must compile every pub fn without panic to a circuit that validates, has one party per parameter (per element for a single array parameter) of size(type) bits and 161 + size(return type) outputs that decode; fully suffixed in-range instances must be accepted; (a) every program of families E, S, P, D must be accepted and well-shaped; distinct_nontrivial = accepted family-I programs + family programs with >=2 distinct outputs",
+            "rule": "family I: 50 templates, one per path by which an integer literal meets its type (operand either side, nested, through let / let mut / annotated let / destructuring / arrays / repeat / tuples / struct and enum fields / fn arguments / return / if branches / match patterns and arms / block tail / ranges / indices / shift amounts / casts / assignments / negative and out-of-range values), each literal position suffixed or unsuffixed in EVERY subset, for all 9 integer types; plus zero-sized and single-array-parameter programs; an accepted program must compile every pub fn without panic to a circuit that validates, has one party per parameter (per element for a single array parameter) of size(type) bits and 161 + size(return type) outputs that decode; fully suffixed in-range instances must be accepted; every accepted variant with unsuffixed literals must compute the same outputs as the fully suffixed program of its group on 6 input patterns (reported under C01); (a) every program of families E, S, P, D must be accepted and well-shaped; distinct_nontrivial = accepted family-I programs + family programs with >=2 distinct outputs",
+            "suffix_variant_pairs_compared_with_fully_suffixed_program": diff_pairs,
+            "suffix_variant_evaluations": diff_evals,
             "functions_refused_for_having_no_input_bit": cnt.refused_no_input_bits.load(Ordering::Relaxed),
             "samples": [
                 {"site": jobs[3 * 9].site, "source": jobs[3 * 9].src},
